@@ -3,9 +3,9 @@
 package rules
 
 import (
-	"regexp"
 	"os"
 	"path/filepath"
+	"regexp"
 	"strings"
 
 	"serfcheck/an"
